@@ -67,3 +67,64 @@ pub fn crc64_avro(data: &[u8], len: usize) -> u64 {
     }
     fp
 }
+
+/// Well-formed UTF-8 per Unicode Table 3-7, on `data[..len]`.
+pub fn utf8_valid(data: &[u8], len: usize) -> bool {
+    let mut i = 0usize;
+    while i < len {
+        let b0 = data[i];
+        let need;
+        let (lo, hi);
+        if b0 < 0x80 {
+            i += 1;
+            continue;
+        } else if b0 >= 0xC2 && b0 <= 0xDF {
+            need = 1;
+            lo = 0x80;
+            hi = 0xBF;
+        } else if b0 == 0xE0 {
+            need = 2;
+            lo = 0xA0;
+            hi = 0xBF;
+        } else if (b0 >= 0xE1 && b0 <= 0xEC) || b0 == 0xEE || b0 == 0xEF {
+            need = 2;
+            lo = 0x80;
+            hi = 0xBF;
+        } else if b0 == 0xED {
+            need = 2;
+            lo = 0x80;
+            hi = 0x9F;
+        } else if b0 == 0xF0 {
+            need = 3;
+            lo = 0x90;
+            hi = 0xBF;
+        } else if b0 >= 0xF1 && b0 <= 0xF3 {
+            need = 3;
+            lo = 0x80;
+            hi = 0xBF;
+        } else if b0 == 0xF4 {
+            need = 3;
+            lo = 0x80;
+            hi = 0x8F;
+        } else {
+            return false;
+        }
+        if i + need >= len {
+            return false; // truncated sequence
+        }
+        let b1 = data[i + 1];
+        if b1 < lo || b1 > hi {
+            return false;
+        }
+        let mut k = 2;
+        while k <= need {
+            let b = data[i + k];
+            if b < 0x80 || b > 0xBF {
+                return false;
+            }
+            k += 1;
+        }
+        i += need + 1;
+    }
+    true
+}
